@@ -326,6 +326,9 @@ OPTS = [
     (False, False, (("mincostlsb", (1, 2)),), None),
     (False, False, (("maxsize", ()),), TL),
     (True, False, (("gen", ()),), TL),
+    # second-side lists present in the file but -twopl not given
+    (False, False, (("maxsize", ()), ("mincost", ())), None, False),
+    (True, False, (), None, False),
 ]
 
 # option sets run on the broader instance set with a smaller depth
@@ -339,6 +342,7 @@ OPTS_WIDE = [
     (False, False, (("maxsize", ()), ("gen", (2,))), None),
     (True, True, (("maxsize", ()), ("gre", (1,))), None),
     (False, False, (), TL),
+    (False, False, (("maxsize", ()), ("mincost", (1, 1))), None, False),
 ]
 
 
@@ -374,15 +378,17 @@ def work(item, tally):
     kind, ii, oi, depth, nsolves = item
     if kind == "base":
         name, inst = INSTS[ii]
-        pc, stab, crits, tl = OPTS[oi]
+        opt = OPTS[oi]
     else:
         inst = WIDE[ii]
-        pc, stab, crits, tl = OPTS_WIDE[oi]
+        opt = OPTS_WIDE[oi]
+    pc, stab, crits, tl = opt[:4]
+    twopl = opt[4] if len(opt) > 4 else True
     R = ref.R(inst)
     crits = tuple(c for c in crits if not (c[0] == "gen" and c[1] and c[1][0] > R))
     text = I.render(inst)
-    tail = lpcheck.tail_for(inst, pc, stab, list(crits))
-    explore_histories(inst, text, tail, list(crits), pc, True, tally, depth, nsolves, tl)
+    tail = lpcheck.tail_for(inst, pc, stab, list(crits), twopl=twopl)
+    explore_histories(inst, text, tail, list(crits), pc, twopl, tally, depth, nsolves, tl)
     tally.inc("items")
 
 
